@@ -343,6 +343,17 @@ func untrustedSliceS(p *Prog, base ssa.Value, seen map[ssa.Value]bool) (bool, st
 		case *ssa.Slice:
 			v = p.origin(x.X)
 			continue
+		case *ssa.MakeSlice:
+			// a local slice whose length is taken from a field of a received packet (make([]T, fb.PacketStatusCount))
+			if w := packetDerivedLength(p, x.Len); w != "" {
+				return true, "local slice whose length is " + w
+			}
+		case *ssa.Call:
+			// a slice handed out by a method of a received pion/rtp|rtcp value (header.GetExtension, packet payloads)
+			if sc := x.Call.StaticCallee(); sc != nil && sc.Pkg != nil && (sc.Pkg.Pkg.Path() == rtpPath || sc.Pkg.Pkg.Path() == rtcpPath) &&
+				len(x.Call.Args) > 0 && parsedRoot(p, x.Call.Args[0], 0) {
+				return true, "result of " + sc.Name() + " on a received packet"
+			}
 		case *ssa.Parameter:
 			if fromPkg(st.Elem(), rtcpPath) {
 				return true, "parameter with elements " + types.TypeString(st.Elem(), nil)
@@ -373,6 +384,79 @@ func untrustedSliceS(p *Prog, base ssa.Value, seen map[ssa.Value]bool) (bool, st
 		break
 	}
 	return false, ""
+}
+
+// loopBoundTiedToLength: the index access sits in a loop one of whose exit conditions is computed from the same packet
+// field(s) as the length of the locally made slice.
+func loopBoundTiedToLength(p *Prog, at *ssa.IndexAddr, ms *ssa.MakeSlice) bool {
+	fields := map[string]bool{}
+	p.backwardReaches(ms.Len, func(v ssa.Value) bool {
+		if u, ok := v.(*ssa.UnOp); ok && u.Op == token.MUL {
+			if fa, ok := u.X.(*ssa.FieldAddr); ok && fromPkg(fa.X.Type(), rtcpPath, rtpPath) {
+				fields[fieldKeyAddr(fa)] = true
+			}
+		}
+		return false
+	})
+	if len(fields) == 0 {
+		return false
+	}
+	// innermost loop containing the access
+	var inner map[*ssa.BasicBlock]bool
+	for _, body := range naturalLoops(at.Parent()) {
+		if body[at.Block()] && (inner == nil || len(body) < len(inner)) {
+			inner = body
+		}
+	}
+	if inner == nil {
+		return false
+	}
+	for _, body := range []map[*ssa.BasicBlock]bool{inner} {
+		for b := range body {
+			c := ifCond(b)
+			if c == nil {
+				continue
+			}
+			// an exit condition: one successor leaves the loop
+			if body[b.Succs[0]] && body[b.Succs[1]] {
+				continue
+			}
+			tied := p.backwardReaches(c, func(v ssa.Value) bool {
+				if u, ok := v.(*ssa.UnOp); ok && u.Op == token.MUL {
+					if fa, ok := u.X.(*ssa.FieldAddr); ok && fields[fieldKeyAddr(fa)] {
+						return true
+					}
+				}
+				return false
+			})
+			if tied {
+				return true
+			}
+		}
+	}
+	return false
+}
+
+// packetDerivedLength: the length expression reads a scalar field of a received pion/rtcp|rtp value (not len() of a
+// slice: a slice made with len(S) and indexed by the range index over S is handled by the caller).
+func packetDerivedLength(p *Prog, l ssa.Value) string {
+	w := ""
+	p.backwardReaches(l, func(v ssa.Value) bool {
+		u, ok := v.(*ssa.UnOp)
+		if !ok || u.Op != token.MUL {
+			return false
+		}
+		fa, ok := u.X.(*ssa.FieldAddr)
+		if !ok || !fromPkg(fa.X.Type(), rtcpPath, rtpPath) || !parsedRoot(p, fa.X, 0) {
+			return false
+		}
+		if _, isBasic := u.Type().Underlying().(*types.Basic); !isBasic {
+			return false
+		}
+		w = "field " + fieldKeyAddr(fa) + " of a received packet"
+		return true
+	})
+	return w
 }
 
 // packetEntryParam: a []byte parameter of a per-packet closure or of a Write/Read method that implements one of the
@@ -415,11 +499,45 @@ func lenMinusConst(p *Prog, idx ssa.Value, baseKey string) (int64, bool) {
 	return c, true
 }
 
+// fixedWidthDecoders: library functions that read a fixed number of bytes from their slice argument and panic on a
+// shorter one: name → (argument index, bytes needed).
+var fixedWidthDecoders = map[string][2]int{
+	"(encoding/binary.bigEndian).Uint16": {1, 2}, "(encoding/binary.bigEndian).Uint32": {1, 4}, "(encoding/binary.bigEndian).Uint64": {1, 8},
+	"(encoding/binary.littleEndian).Uint16": {1, 2}, "(encoding/binary.littleEndian).Uint32": {1, 4}, "(encoding/binary.littleEndian).Uint64": {1, 8},
+	"(encoding/binary.bigEndian).PutUint16": {1, 2}, "(encoding/binary.bigEndian).PutUint32": {1, 4}, "(encoding/binary.bigEndian).PutUint64": {1, 8},
+}
+
 func fF1F3(p *Prog, o *obls, fn *ssa.Function) {
 	loops := findRangeLoops(fn)
 	fk := funcKey(fn)
 	instrsOf(fn, func(in ssa.Instruction) {
 		switch x := in.(type) {
+		case *ssa.Call:
+			spec, ok := fixedWidthDecoders[calleeName(&x.Call)]
+			if !ok || spec[0] >= len(x.Call.Args) {
+				return
+			}
+			b := x.Call.Args[spec[0]]
+			unt, why := untrustedSlice(p, b)
+			if !unt {
+				return
+			}
+			// a constant-bounded re-slice b[i:i+k] of sufficient width is checked by the slice itself
+			if sl, ok := p.origin(b).(*ssa.Slice); ok && sl.High != nil && sl.Low != nil {
+				if lo, ok1 := constInt(sl.Low); ok1 {
+					if hi, ok2 := constInt(sl.High); ok2 && hi-lo >= int64(spec[1]) {
+						return
+					}
+				}
+			}
+			bKey := p.pureKey(b)
+			isLen := func(v ssa.Value) bool { return isLenOf(p, v, bKey) }
+			construct := fk + ":" + x.Call.StaticCallee().Name() + "(" + shortExpr(p, b) + ")"
+			if g, w := p.guardedBy(x, isLen, func(ssa.Value) bool { return true }); g {
+				o.ok("F1", construct, p.instrPos(x), fmt.Sprintf("%d-byte decode of a packet-derived slice guarded by %s", spec[1], w))
+			} else {
+				o.bad("F1", construct, p.instrPos(x), fmt.Sprintf("%d-byte fixed-width decode of a slice taken from a received packet (%s) without a dominating test of its length: a shorter slice panics", spec[1], why))
+			}
 		case *ssa.IndexAddr:
 			if _, isSlice := x.X.Type().Underlying().(*types.Slice); !isSlice {
 				return
@@ -468,6 +586,10 @@ func fF1F3(p *Prog, o *obls, fn *ssa.Function) {
 					o.ok("F1", construct, p.instrPos(x), "constant index guarded by "+w)
 					return
 				}
+			}
+			if ms, ok := p.origin(x.X).(*ssa.MakeSlice); ok && loopBoundTiedToLength(p, x, ms) {
+				o.note("F1", construct, p.instrPos(x), "index counts the iterations of a loop whose bound is computed from the same packet field as the slice length (arithmetic relation, not decided)")
+				return
 			}
 			o.bad("F1", construct, p.instrPos(x), "index into a slice taken from a parsed packet ("+why+") with no dominating comparison of the index with the slice length: a well-formed but inconsistent packet indexes out of range")
 		case *ssa.Slice:
